@@ -194,7 +194,15 @@ class SymCtx:
         return self.model
 
 
-def branch(cond):
+def peek_aux():
+    """while replaying a prefix: the auxiliary value recorded with the next decision (else None)"""
+    c = CTX
+    if c.pos < len(c.prefix):
+        return c.prefix[c.pos][2]
+    return None
+
+
+def branch(cond, aux=None):
     """decide a Boolean term under the current path condition; forks when both sides are feasible"""
     if cond is True or cond is False:
         return cond
@@ -206,7 +214,7 @@ def branch(cond):
         return cond2
     h = cond.h
     if c.pos < len(c.prefix):
-        take, eh = c.prefix[c.pos]
+        take, eh, _ = c.prefix[c.pos]
         if eh != h:
             raise ReplayDivergence('decision %d: condition differs from the recorded one (%s)' % (c.pos, T.show(cond)))
         c.pos += 1
@@ -217,9 +225,9 @@ def branch(cond):
         ok, m2 = c.sat(other)
         take = cur
         if ok:
-            c.pending.append((c.trail + [(not cur, h)], m2))
+            c.pending.append((c.trail + [(not cur, h, aux)], m2))
         c.pos += 1
-    c.trail.append((take, h))
+    c.trail.append((take, h, aux))
     c.add(cond if take else T.bnot(cond))
     return take
 
@@ -431,6 +439,13 @@ def run_concrete(harness, inputs):
         out['exc'] = '%s: %s' % (type(e).__name__, str(e)[:200])
         out['exc_type'] = type(e).__name__
         out['tb'] = traceback.format_exc()[-1500:]
+        tb = e.__traceback__
+        while tb.tb_next is not None:
+            tb = tb.tb_next
+        fn = tb.tb_frame.f_code.co_filename
+        if '/harness/' in fn or '/symx/' in fn:
+            # raised by the harness itself, not by the code under test: a harness bug, never a violation
+            out['status'] = 'harness-exception'
     finally:
         CTX = None
     out['labels'] = sorted(c.labels)
